@@ -176,7 +176,7 @@ def random_strict(rng, depth=0):
             return atom(rng.choice(ATOMS))
         if rng.random() < 0.7:
             return cmp_("sigdigs", rng.choice(["<", "<=", ">", ">=", "==", "!="]), rng.choice([1, 25, 30, 40]))
-        return cmp_("rse", rng.choice(["<", "<=", ">", ">="]), rng.choice([2, 4, 6]))
+        return cmp_("rse", rng.choice(["<", "<=", ">", ">=", "=="]), rng.choice([2, 4, 6]))
     if r < 0.5:
         return not_(random_strict(rng, depth + 1))
     if r < 0.75:
@@ -221,8 +221,8 @@ def random_model(rng):
         "ms": rng.random() < 0.65,
         "tc": rng.choice(["none", "none", "rounding_errors", "maxevals_exceeded"]),
         "fzg": rng.random() < 0.25,
-        "sd": rng.choice([1, 25, 30, 40]),
-        "rse": rng.choice([[1, 3], [2, 6], [4, 4], [1, 1]]),
+        "sd": rng.choice([1, 25, 30, 40, -1]),
+        "rse": rng.choice([[1, 3], [2, 6], [4, 4], [1, 1], [4, 6], [2, 4], [6, 7, 8], [3, 4, 5]]),
     }
 
 
@@ -268,6 +268,16 @@ CORE_GROUPS = [
      "cfgs": [cfg("bic", "iiv"), cfg("bic", "mixed"), cfg("bic", "random"), cfg("bic", "fixed"), cfg("aic"), cfg("lrt"),
               cfg("bic", "iiv", cutoff=0)],
      "maxLen": 3},
+    # every comparison operator on a NaN attribute (sigdigs of a failed run) and on a multi-valued attribute (rse vectors
+    # below / straddling / on / above the limit 0.4): "all elements satisfy", NaN satisfies nothing but !=
+    {"models": [M(1, 100), M(6, 90, ms=False, tc="rounding_errors", sd=-1, rse=(2, 6)), M(7, 95, rse=(4, 4)),
+                M(1, 95, ms=False, tc="rounding_errors", sd=30, rse=(1, 3)), M(5, 90, rse=(6, 7, 8)), M(2, 80, sd=-1, rse=(4, 6))],
+     "cfgs": [cfg("ofv", strict=DEFAULT_STRICT)]
+             + [cfg("ofv", strict=cmp_("sigdigs", rel, 30)) for rel in ("<", "<=", ">", ">=", "==", "!=")]
+             + [cfg("ofv", strict=cmp_("rse", rel, 4)) for rel in ("<", "<=", ">", ">=", "==")]
+             + [cfg("aic", strict=or_(atom("minimization_successful"), cmp_("sigdigs", ">=", 1))),
+                cfg("ofv", strict=and_(atom("minimization_successful"), not_(cmp_("rse", ">=", 4))))],
+     "maxLen": 2},
     # LRT with parent chains, negative degrees of freedom, two-sided cut-off
     {"models": [M(6, 100), M(1, 100), M(11, 90), M(5, 100), M(7, 95), M(6, 0)],
      "cfgs": [cfg("lrt"), cfg("lrt", parents="chain"), cfg("lrt", cutoff=("0.01", "0.05"), parents="chain"),
@@ -349,7 +359,7 @@ def _mfr(am, model):
         ofv=float("nan") if am["ofv"] == 0 else float(am["ofv"]),
         minimization_successful=am["ms"],
         termination_cause=None if am["tc"] == "none" else am["tc"],
-        significant_digits=am["sd"] / 10,
+        significant_digits=float("nan") if am["sd"] < 0 else am["sd"] / 10,
         warnings=["final_zero_gradient"] if am["fzg"] else [],
         relative_standard_errors=rse,
     )
